@@ -26,7 +26,7 @@ class EngineC14(HistEngine):
         ops = []
         used_names: set[str] = set()
         for _ in range(n):
-            k = ch.weighted([("insn", 10), ("stmt", w_stmt), ("fresh", w_fresh), ("new", w_new if len(insts) < 3 else 0),
+            k = ch.weighted([("insn", 10), ("stmt", w_stmt), ("fresh", w_fresh), ("fresh2", w_fresh // 2), ("new", w_new if len(insts) < 3 else 0),
                              ("add_sub", 1), ("parse_err", fail_w // 2), ("load", 1), ("loaded_insn", 2)], "opkind")
             if k == "new":
                 fmt = ch.choice(FMTS, "newfmt")
@@ -63,6 +63,16 @@ class EngineC14(HistEngine):
                 part = ch.choice(parts, "spart")
                 op = {"op": "stmt", "inst": inst, "code": part}
                 rname, rparts, rfmt = "stmt", [part], insts[inst]
+            elif k == "fresh2":
+                rfmt = ch.choice(FMTS, "ffmt")
+                n2, parts2, _ = self.gen_input(ch, 0)
+                codes = [ch.choice(parts, "f2a"), ch.choice(parts2, "f2b")]
+                ok = [c_ for c_ in codes if self.ref(rfmt, "stmt", c_, tuple(subs))["status"] == "ok"]
+                if len(ok) < 2:
+                    continue        # a raising first transform would leave no second one to look at
+                op = {"op": "fresh2", "inst": inst, "codes": codes, "fmt": rfmt}
+                ops.append(op)
+                continue
             elif k == "fresh":
                 part = ch.choice(parts, "fpart")
                 rfmt = ch.choice(FMTS, "ffmt")
@@ -120,7 +130,7 @@ class EngineC14(HistEngine):
             if kind not in COMPILE_OPS:
                 continue
             inst = op.get("inst", 0) % len(insts)
-            fmt = op["fmt"] if kind == "fresh" else insts[inst]
+            fmt = op["fmt"] if kind in ("fresh", "fresh2") else insts[inst]
             name = op["name"] if kind in ("insn", "loaded_insn") else "stmt"
             if kind == "loaded_insn":
                 parts = list(self.beh[op["name"]])
@@ -128,6 +138,8 @@ class EngineC14(HistEngine):
                 if o["status"] == "ok" and got_parts != parts:
                     viol(step, "loader-parts", "", name=name, got=len(got_parts or []), want=len(parts))
                     continue
+            elif kind == "fresh2":
+                parts = list(op["codes"])
             else:
                 parts = op["parts"] if kind == "insn" else [op["code"]]
             fault = op.get("fault")
